@@ -415,6 +415,17 @@ def gen_C18(rnd, n, tier):
         cfgl = cfgn.copy(lint=True)
         out.append(Case(compile_line(cfgn, src), src, cfgn, {"mode": "normal"}, group=i))
         out.append(Case(compile_line(cfgl, src), src, cfgl, {"mode": "lint"}, group=i))
+    # format() texts made of brace, backslash and multi-byte fragments (appended, so the stream above keeps its
+    # draws): the formatter's word scanner and width measurement must answer on half-typed control codes too
+    FRAG = ["a", "bb", " ", "  ", "{", "}", "{PLAYER", "{PLAYER}", "{COLOR RED}", "\\n", "\\p", "\\l", "\\\\", "é", "上", "$", "{}", "}{", "\\N", "!"]
+    for i in range(40 if tier == "quick" else 600):
+        body = "".join(rnd.choice(FRAG) for _ in range(rnd.randint(1, 9)))
+        src = rnd.choice(['script S {\n\tlock\n\tmsgbox(format("%s"))\n\trelease\n}', 'text T {\n\tformat("%s")\n}', 'script S { msgbox(format("%s", "1_latin_frlg", 40)) }',
+                          'text T { format("x"\n  "%s") }', 'script S { msgbox(format(ascii"%s")) }']) % body
+        cfgn = repo_cfg(switches={}, optimize=rnd.random() < 0.5, lm=False, path="", deffont=rnd.choice(["", "1_latin_frlg"]))
+        cfgl = cfgn.copy(lint=True)
+        out.append(Case(compile_line(cfgn, src), src, cfgn, {"mode": "normal"}, group=("f", i)))
+        out.append(Case(compile_line(cfgl, src), src, cfgl, {"mode": "lint"}, group=("f", i)))
     return out
 
 ENV_MSG = re.compile(r"poryswitch used, but no compile switches|no poryswitch for '|no poryswitch case found for|unknown fontID")
@@ -539,6 +550,17 @@ def gen_C19(rnd, n, tier):
         for k in range(2):
             s = relayout(src0, rnd)
             out.append(Case(compile_line(cfg, s), s, cfg, {"layout": k + 1}, group=("c", i)))
+    # identifiers made of multi-byte LETTERS whose low byte is an ASCII character the lexer treats specially (blank,
+    # tab, line break, quote, '#', '/', '(', '`', '_', NUL, digit): a table-driven or byte-wise fast path must not see them
+    LOW = [0x20, 0x09, 0x0A, 0x0D, 0x22, 0x23, 0x2F, 0x28, 0x29, 0x60, 0x5F, 0x00, 0x30, 0x39, 0x2C, 0x3A, 0x7B, 0x7D, 0x41, 0x61]
+    def wide_ident(r):
+        s = "".join(chr(r.choice([0x100, 0x400, 0x4E00, 0x4F00]) + r.choice(LOW)) if r.random() < 0.7 else r.choice(["a", "_", "x1", "é"]) for _ in range(r.randint(1, 4)))
+        return s if not s[0].isdigit() else "w" + s
+    for i in range(max(20, n // 20)):
+        ls = [("id", wide_ident(rnd)) if rnd.random() < 0.6 else lexeme(rnd) for _ in range(rnd.randint(1, 8))]
+        for k in range(2 if tier == "quick" else 3):
+            s, offs = render_lexemes(ls, rnd)
+            out.append(Case(lex_line(s), s, None, {"ls": ls, "offs": offs}, group=("wide", i)))
     return out
 
 def oracle_C19_group(cases, results):
